@@ -381,6 +381,9 @@ UnmarshalEv(e) ==
     /\ Chk(e, "C16", "concurrent_decode_is_pure",
            (wf => (okc /\ o.n = spec.n /\ o.ch = spec.ch /\ SameDecoded(spec.f, o.f)))
            /\ (spec.k \in {"incomplete", "malformed"} => (o.r = "exc" \/ (okc /\ spec.k = "malformed"))))
+    \* information, never a verdict: the reference calls the input malformed and the code returns a frame (the decoder's
+    \* LENIENCY, Appendix C item 4); counted per input family into the evidence file and compared with leniency_pin.json
+    /\ (IF spec.k = "malformed" /\ okc THEN PrintT(<< "INFO", e.id, "lenient" >>) ELSE TRUE)
     /\ Chk(e, "C09", "only_library_exception", o.r = "exc" => (o.lib /\ o.type = "UnmarshalingException"))
     /\ Chk(e, "C08", "terminates_within_step_budget", o.r # "budget")
     /\ Chk(e, "C08", "steps_linear_in_input", e.steps <= 16 * Len(b) + 256)
